@@ -123,6 +123,14 @@ Theorem C17_convert_commutes_mask :
     mask_with m (map (convert u v) l) = map (option_map (convert u v)) (mask_with m l).
 Proof. exact convert_commutes_mask. Qed.
 
+(** n reads of the same link / conversion (a static input pulled n times, a timed one re-read)
+    give n copies of the dimensional-analysis answer. *)
+Theorem C17_repeated_reads :
+  forall (Un : list uent) (o : op) (n : nat) (c : cache),
+    faithful Un -> sound Un c -> incl (op_ents o) Un ->
+    run c (repeat o n) = repeat (pure_res o) n.
+Proof. exact repeated_reads. Qed.
+
 (** Non-vacuity. *)
 (* a session on the catalogue with repeated / reversed pairs, a clear, a relabel, offsets, a
    refused link; memoised answers = pure answers, and they are not all trivial *)
@@ -179,3 +187,4 @@ Print Assumptions C17_refuse.
 Print Assumptions C17_link_exact.
 Print Assumptions C17_catalogue_ok.
 Print Assumptions C17_convert_commutes_mask.
+Print Assumptions C17_repeated_reads.
